@@ -21,14 +21,16 @@ theorem C01_engine (concat : List P → P) (hc1 : ∀ p, concat [p] = p)
   execPar_eq_execSeq concat hc1 w len split hsplit rest hok n
 
 /-- C01/C05 (termination): the fan-in loop finishes for EVERY fan-out setting — `None`, `Some 0`,
-    `Some 1`, … — and its result is the merge of all accumulators up to the accumulator equivalence. -/
+    `Some 1`, … — and its result is the merge of all accumulators up to the accumulator equivalence `R`
+    (on accumulators satisfying the invariant `I`, e.g. "is a fold of some values"). -/
 theorem C01_fanin_terminates (m : List P → P) (fo : Option Nat)
-    (R : P → P → Prop) (hrefl : ∀ a, R a a) (htrans : ∀ {a b c}, R a b → R b c → R a c)
-    (hm1 : ∀ a, m [a] = a)
-    (hassoc : ∀ gs : List (List P), (∀ g ∈ gs, g ≠ []) → R (m (gs.map m)) (m gs.flatten))
-    (accs : List P) :
+    (I : P → Prop) (R : P → P → Prop) (hrefl : ∀ a, R a a) (htrans : ∀ {a b c}, R a b → R b c → R a c)
+    (hI : ∀ g : List P, (∀ a ∈ g, I a) → I (m g))
+    (hm1 : ∀ a, I a → R a (m [a]))
+    (hassoc : ∀ gs : List (List P), (∀ g ∈ gs, g ≠ [] ∧ ∀ a ∈ g, I a) → R (m (gs.map m)) (m gs.flatten))
+    (accs : List P) (hIa : ∀ a ∈ accs, I a) :
     ∃ x, reduceGlobal m fo accs = pure x ∧ R x (m accs) :=
-  reduceGlobal_spec m fo R hrefl htrans hm1 hassoc accs
+  reduceGlobal_spec m fo I R hrefl htrans hI hm1 hassoc accs hIa
 
 /-- the pinned commit clamped the fan-out with `.max(1)`: with ≥ 2 accumulators and fan-out 0 or 1
     NO amount of fuel suffices (the real run never returned) -/
